@@ -181,10 +181,28 @@ func (t *TargetsManager) doCallbacks() error {
 
 func (t *TargetsManager) saveTargets() error {
 	data, _ := json.Marshal(&t.targets)
-	if err := ioutil.WriteFile(t.storePath(), data, 0755); err != nil {
+	// write to a temp file and rename it, so that an interrupted write
+	// never leaves a truncated store behind
+	tmp := t.storePath() + ".tmp"
+	f, err := os.OpenFile(tmp, os.O_WRONLY|os.O_CREATE|os.O_TRUNC, 0755)
+	if err != nil {
 		return err
 	}
-	return nil
+	if _, err := f.Write(data); err != nil {
+		_ = f.Close()
+		_ = os.Remove(tmp)
+		return err
+	}
+	if err := f.Sync(); err != nil {
+		_ = f.Close()
+		_ = os.Remove(tmp)
+		return err
+	}
+	if err := f.Close(); err != nil {
+		_ = os.Remove(tmp)
+		return err
+	}
+	return os.Rename(tmp, t.storePath())
 }
 
 func (t *TargetsManager) storePath() string {
